@@ -63,3 +63,13 @@
     // the tree-search fallback for forward references is declared only (roxmltree descendants + the whole reader): NO contract, its result is arbitrary here
     #[verifier::external_body]
     fn try_to_find_node_by_xml_name_in_xml_doc<'n>(start_node: &'n Node<'n, 'n>, xml_name: &str, namespace: Option<&Namespace>, types_only: bool, doc: &mut RustDocument) -> WriterResult<RustNode> { unimplemented!() }
+//# section: restrictions-default
+    // `#[derive(Default)] struct Restrictions` (structures/restrictions.rs; dropped with the attribute line): every facet absent
+    impl Default for Restrictions {
+        #[verifier::external_body]
+        fn default() -> (r: Self)
+            ensures r.min_inclusive is None, r.max_inclusive is None, r.min_exclusive is None, r.max_exclusive is None, r.total_digits is None,
+                r.fraction_digits is None, r.length is None, r.min_length is None, r.max_length is None, r.enumeration is None, r.white_space is None,
+                r.pattern is None, r.acceptable_union_types is None, r.acceptable_list_type is None
+        { unimplemented!() }
+    }
